@@ -117,6 +117,11 @@ def judge(sc, run, sim, res):
         res.violate('post-not-queued-as-posted', {'kind': p['kind'], 'n': len(mine)},
                     '%s: post_%s of %s (%s) appears in the queue history as %s' % (name, p['kind'], uid, p['sig'], [(m[1], m[2]) for m in mine]))
         return
+    if q['not_front']:
+      seq, tn, got, queue = q['not_front'][0]
+      res.violate('took-not-the-front', {'overflow': sc['queue_size'] < 500},
+                  '%s: %s took %s while the pending events were %s (front first): the step must take the front event' % (name, tn, got, queue))
+      return
     # the dispatch log is what the consumer took from the front, in that order
     took = [u for _, tn, u in q['pops'] if tn.startswith('consumer') and u is not None]
     disp = [d[3] for d in run.dispatch if d[1] == oi]
